@@ -1433,4 +1433,314 @@ theorem history_view' (F : Foreign) (h0 : Heap) : ∀ (ops : List HOp) (w w' : W
       rw [← e2]
       exact ih w1 w' e4 e5 e6 hall' hr
 
+/-! ## constructors -/
+
+/-- only new `Calibration` objects appear -/
+def GrowsC (h h' : Heap) : Prop :=
+  h'.cells = h.cells ∧ h.cals.length ≤ h'.cals.length ∧ (∀ i, i < h.cals.length → h'.cals[i]? = h.cals[i]?) ∧
+  h'.cfgs = h.cfgs ∧ h'.offs = h.offs ∧ h'.dicts = h.dicts
+
+theorem GrowsC.refl (h : Heap) : GrowsC h h := ⟨rfl, Nat.le_refl _, fun _ _ => rfl, rfl, rfl, rfl⟩
+
+theorem GrowsC.trans {a b c : Heap} (h1 : GrowsC a b) (h2 : GrowsC b c) : GrowsC a c :=
+  ⟨h2.1.trans h1.1, Nat.le_trans h1.2.1 h2.2.1,
+   fun i hi => (h2.2.2.1 i (Nat.lt_of_lt_of_le hi h1.2.1)).trans (h1.2.2.1 i hi),
+   h2.2.2.2.1.trans h1.2.2.2.1, h2.2.2.2.2.1.trans h1.2.2.2.2.1, h2.2.2.2.2.2.trans h1.2.2.2.2.2⟩
+
+theorem GrowsC.calOf {h h' : Heap} (g : GrowsC h h') {i : Nat} (hi : i < h.cals.length) : h'.calOf i = h.calOf i := by
+  unfold Heap.calOf; rw [g.2.2.1 i hi]
+
+theorem growsC_alloc (h : Heap) (c : Nat) : GrowsC h (h.allocCal c).2 :=
+  ⟨rfl, by simp [Heap.allocCal], fun i hi => List.getElem?_append_left hi, rfl, rfl, rfl⟩
+
+theorem GrowsC.viewDict {h h' : Heap} (g : GrowsC h h') {d : IdDict} (hd : ∀ e ∈ d, e.2 < h.cals.length) :
+    viewDict h' d = viewDict h d := viewDict_congr (fun e he => g.calOf (hd e he))
+
+theorem allocCal_calOf_new (h : Heap) (c : Nat) : (h.allocCal c).2.calOf h.cals.length = c := by
+  unfold Heap.allocCal Heap.calOf
+  simp
+
+theorem allocDefaults_spec : ∀ (ns : List Name) (d : IdDict) (h : Heap), (∀ e ∈ d, e.2 < h.cals.length) →
+    viewDict (allocDefaults ns d h).2 (allocDefaults ns d h).1 = ns.foldl (fun acc n => dictSet acc n 0) (viewDict h d) ∧
+    GrowsC h (allocDefaults ns d h).2 ∧
+    (∀ e ∈ (allocDefaults ns d h).1, e.2 < (allocDefaults ns d h).2.cals.length) ∧
+    (∀ e ∈ (allocDefaults ns d h).1, e ∈ d ∨ h.cals.length ≤ e.2) := by
+  intro ns
+  induction ns with
+  | nil => intro d h hd; exact ⟨rfl, GrowsC.refl _, hd, fun e he => Or.inl he⟩
+  | cons n t ih =>
+    intro d h hd
+    simp only [allocDefaults, List.foldl_cons]
+    have hg := growsC_alloc h 0
+    have hd' : ∀ e ∈ dictSet d n h.cals.length, e.2 < (h.allocCal 0).2.cals.length := by
+      intro e he
+      show e.2 < (h.cals ++ [0]).length
+      rcases mem_dictSet he with h1 | h1
+      · have := hd e h1; simp; omega
+      · subst h1; simp
+    obtain ⟨i1, i2, i3, i4⟩ := ih (dictSet d n h.cals.length) (h.allocCal 0).2 hd'
+    refine ⟨?_, hg.trans i2, i3, ?_⟩
+    · rw [i1]
+      congr 1
+      unfold viewDict
+      rw [mapV_dictSet, allocCal_calOf_new]
+      congr 1
+      exact hg.viewDict hd
+    · intro e he
+      rcases i4 e he with h1 | h1
+      · rcases mem_dictSet h1 with h2 | h2
+        · exact Or.inl h2
+        · right; rw [h2]; exact Nat.le_refl _
+      · right
+        have : h.cals.length ≤ (h.allocCal 0).2.cals.length := hg.2.1
+        omega
+
+theorem lookup_mem {memo : List (Nat × Nat)} {k v : Nat} (h : memo.lookup k = some v) : (k, v) ∈ memo := by
+  induction memo with
+  | nil => simp at h
+  | cons p r ih =>
+    obtain ⟨a, b⟩ := p
+    simp only [List.lookup_cons] at h
+    by_cases hk : k = a
+    · subst hk
+      simp only [beq_self_eq_true, Option.some.injEq] at h
+      subst h; simp
+    · have : (k == a) = false := by simp [hk]
+      rw [this] at h
+      simp [ih h]
+
+theorem deepcopyEntries_spec (h0 : Heap) : ∀ (g : IdDict) (memo : List (Nat × Nat)) (out : IdDict) (h : Heap),
+    (∀ e ∈ g, e.2 < h0.cals.length) → GrowsC h0 h →
+    (∀ p ∈ memo, p.1 < h0.cals.length ∧ h0.cals.length ≤ p.2 ∧ p.2 < h.cals.length ∧ h.calOf p.2 = h0.calOf p.1) →
+    (∀ e ∈ out, h0.cals.length ≤ e.2 ∧ e.2 < h.cals.length) →
+    viewDict (deepcopyEntries g memo out h).2 (deepcopyEntries g memo out h).1 = viewDict h out ++ viewDict h0 g ∧
+    GrowsC h (deepcopyEntries g memo out h).2 ∧
+    (∀ e ∈ (deepcopyEntries g memo out h).1, h0.cals.length ≤ e.2 ∧ e.2 < (deepcopyEntries g memo out h).2.cals.length) := by
+  intro g
+  induction g with
+  | nil =>
+    intro memo out h _ _ _ hout
+    simp only [deepcopyEntries, viewDict, mapV_nil, List.append_nil]
+    exact ⟨trivial, GrowsC.refl _, hout⟩
+  | cons e r ih =>
+    intro memo out h hg hgr hmemo hout
+    have hgr' : ∀ x ∈ r, x.2 < h0.cals.length := fun x hx => hg x (by simp [hx])
+    simp only [deepcopyEntries]
+    cases hl : memo.lookup e.2 with
+    | some id =>
+      obtain ⟨m1, m2, m3, m4⟩ := hmemo _ (lookup_mem hl)
+      have hout' : ∀ x ∈ out ++ [(e.1, id)], h0.cals.length ≤ x.2 ∧ x.2 < h.cals.length := by
+        intro x hx
+        rcases List.mem_append.1 hx with h1 | h1
+        · exact hout x h1
+        · simp only [List.mem_singleton] at h1; subst h1; exact ⟨m2, m3⟩
+      obtain ⟨i1, i2, i3⟩ := ih memo (out ++ [(e.1, id)]) h hgr' hgr hmemo hout'
+      refine ⟨?_, i2, i3⟩
+      rw [i1]
+      simp only [viewDict, mapV_append, mapV_cons, mapV_nil, List.append_assoc, List.singleton_append]
+      rw [show h.calOf id = h0.calOf e.2 from m4]
+    | none =>
+      have he : e.2 < h0.cals.length := hg e (by simp)
+      have hga := growsC_alloc h (h.calOf e.2)
+      have hnew : (h.allocCal (h.calOf e.2)).2.calOf h.cals.length = h0.calOf e.2 := by
+        rw [allocCal_calOf_new, hgr.calOf he]
+      have hlen : (h.allocCal (h.calOf e.2)).2.cals.length = h.cals.length + 1 := by simp [Heap.allocCal]
+      have hmemo' : ∀ p ∈ (e.2, h.cals.length) :: memo, p.1 < h0.cals.length ∧ h0.cals.length ≤ p.2 ∧
+          p.2 < (h.allocCal (h.calOf e.2)).2.cals.length ∧ (h.allocCal (h.calOf e.2)).2.calOf p.2 = h0.calOf p.1 := by
+        intro p hp
+        rcases List.mem_cons.1 hp with h1 | h1
+        · subst h1
+          exact ⟨he, hgr.2.1, by rw [hlen]; omega, hnew⟩
+        · obtain ⟨m1, m2, m3, m4⟩ := hmemo p h1
+          exact ⟨m1, m2, by rw [hlen]; omega, by rw [hga.calOf m3]; exact m4⟩
+      have hout' : ∀ x ∈ out ++ [(e.1, h.cals.length)], h0.cals.length ≤ x.2 ∧
+          x.2 < (h.allocCal (h.calOf e.2)).2.cals.length := by
+        intro x hx
+        rcases List.mem_append.1 hx with h1 | h1
+        · have := hout x h1; exact ⟨this.1, by rw [hlen]; omega⟩
+        · simp only [List.mem_singleton] at h1; subst h1; exact ⟨hgr.2.1, by rw [hlen]; omega⟩
+      obtain ⟨i1, i2, i3⟩ := ih ((e.2, h.cals.length) :: memo) (out ++ [(e.1, h.cals.length)])
+        (h.allocCal (h.calOf e.2)).2 hgr' (hgr.trans hga) hmemo' hout'
+      refine ⟨?_, hga.trans i2, i3⟩
+      rw [i1]
+      simp only [viewDict, mapV_append, mapV_cons, mapV_nil, List.append_assoc, List.singleton_append]
+      rw [hnew]
+      congr 1
+      exact mapV_congr (fun x hx => hga.calOf (hout x hx).2)
+
+theorem mem_foldl_dictSet {e : Name × Nat} : ∀ (l acc : Dict),
+    e ∈ l.foldl (fun acc e => dictSet acc e.1 e.2) acc → e ∈ l ∨ e ∈ acc := by
+  intro l
+  induction l with
+  | nil => intro acc h; exact Or.inr h
+  | cons x r ih =>
+    intro acc h
+    simp only [List.foldl_cons] at h
+    rcases ih _ h with h1 | h1
+    · exact Or.inl (by simp [h1])
+    · rcases mem_dictSet h1 with h2 | h2
+      · exact Or.inr h2
+      · exact Or.inl (by simp [h2])
+
+theorem conCal_spec (h : Heap) (els : List Name) (given : Option Nat)
+    (hg : ∀ g, given = some g → ∀ e ∈ h.dict g, e.2 < h.cals.length) :
+    viewDict (conCal h els given).2 (conCal h els given).1 =
+      initCal els (given.map (fun g => viewDict h (h.dict g))) ∧
+    GrowsC h (conCal h els given).2 ∧
+    (∀ e ∈ (conCal h els given).1, h.cals.length ≤ e.2 ∧ e.2 < (conCal h els given).2.cals.length) := by
+  obtain ⟨d1, d2, d3, d4⟩ := allocDefaults_spec els [] h (by simp)
+  have d4' : ∀ e ∈ (allocDefaults els [] h).1, h.cals.length ≤ e.2 := by
+    intro e he
+    rcases d4 e he with h1 | h1
+    · simp at h1
+    · exact h1
+  cases given with
+  | none =>
+    simp only [conCal, initCal, Option.map_none]
+    exact ⟨d1, d2, fun e he => ⟨d4' e he, d3 e he⟩⟩
+  | some g =>
+    simp only [conCal, initCal, Option.map_some]
+    have hdg : (allocDefaults els [] h).2.dict g = h.dict g := by unfold Heap.dict; rw [d2.2.2.2.2.2]
+    rw [hdg]
+    obtain ⟨c1, c2, c3⟩ := deepcopyEntries_spec (allocDefaults els [] h).2 (h.dict g) [] [] (allocDefaults els [] h).2
+      (fun e he => Nat.lt_of_lt_of_le (hg g rfl e he) d2.2.1) (GrowsC.refl _) (by simp) (by simp)
+    refine ⟨?_, d2.trans c2, ?_⟩
+    · unfold viewDict at c1 ⊢
+      have := mapV_foldl_dictSet (deepcopyEntries (h.dict g) [] [] (allocDefaults els [] h).2).2.calOf id
+        (deepcopyEntries (h.dict g) [] [] (allocDefaults els [] h).2).1 (allocDefaults els [] h).1
+      simp only [id] at this
+      rw [this, c1]
+      simp only [mapV_nil, List.nil_append]
+      have e1 : mapV (deepcopyEntries (h.dict g) [] [] (allocDefaults els [] h).2).2.calOf (allocDefaults els [] h).1
+          = List.foldl (fun acc n => dictSet acc n 0) [] els := by
+        have d1' : viewDict (allocDefaults els [] h).2 (allocDefaults els [] h).1 =
+            List.foldl (fun acc n => dictSet acc n 0) [] els := d1
+        rw [← d1']
+        exact c2.viewDict d3
+      have e2 : mapV (allocDefaults els [] h).2.calOf (h.dict g) = mapV h.calOf (h.dict g) :=
+        d2.viewDict (hg g rfl)
+      rw [e1, e2]
+    · intro e he
+      rcases mem_foldl_dictSet _ _ he with h1 | h1
+      · have := c3 e h1
+        exact ⟨Nat.le_trans d2.2.1 this.1, this.2⟩
+      · exact ⟨d4' e h1, Nat.lt_of_lt_of_le (d3 e h1) c2.2.1⟩
+
+theorem elementsOf_viewLayers (h : Heap) (data : List Arr) : elementsOf (data.map (viewLayer h)) = elementsOf data := by
+  cases data with
+  | nil => rfl
+  | cons a t => simp [elementsOf, viewLayer]
+
+theorem hConstruct_spec (h : Heap) (srr : Bool) (data : List Arr) (given config : Option Nat) (w : World)
+    (hd : ∀ a ∈ data, ArrOK h a) (hg : ∀ g, given = some g → ∀ e ∈ h.dict g, e.2 < h.cals.length)
+    (hw : hConstruct h srr data given config = some w) :
+    view w = mkState srr (data.map (viewLayer h)) (given.map (fun g => viewDict h (h.dict g)))
+        ((config.map (fun k => (h.cfgOf k).scal)).getD 0) ∧
+    Valid w ∧ w.laser.data = data ∧ w.laser.srr = srr ∧
+    h.dicts.length ≤ w.laser.cal ∧ (∀ e ∈ w.heap.dict w.laser.cal, h.cals.length ≤ e.2) ∧
+    h.cfgs.length ≤ w.laser.cfg ∧
+    (∀ k, config = some k → (w.heap.cfgOf w.laser.cfg).offs = (h.cfgOf k).offs) ∧
+    w.heap.cells = h.cells ∧ h.cals.length ≤ w.heap.cals.length ∧ h.dicts.length ≤ w.heap.dicts.length ∧
+    h.cfgs.length ≤ w.heap.cfgs.length := by
+  unfold hConstruct at hw
+  split at hw
+  · simp at hw
+  · simp only [Option.some.injEq] at hw
+    obtain ⟨c1, c2, c3⟩ := conCal_spec h (elementsOf data) given hg
+    -- name the pieces
+    generalize hr1 : conCal h (elementsOf data) given = r1 at hw c1 c2 c3
+    obtain ⟨d, h1⟩ := r1
+    simp only at hw c1 c2 c3
+    -- the configuration part never touches cells, calibrations or dicts
+    have hcfg : ∀ (hh : Heap), (conCfg hh srr config).2.cells = hh.cells ∧ (conCfg hh srr config).2.cals = hh.cals ∧
+        (conCfg hh srr config).2.dicts = hh.dicts ∧ (conCfg hh srr config).1 = hh.cfgs.length ∧
+        (conCfg hh srr config).2.cfgs.length = hh.cfgs.length + 1 ∧
+        ((conCfg hh srr config).2.cfgOf hh.cfgs.length).scal = (config.map (fun k => (hh.cfgOf k).scal)).getD 0 ∧
+        (∀ k, config = some k → ((conCfg hh srr config).2.cfgOf hh.cfgs.length).offs = (hh.cfgOf k).offs) := by
+      intro hh
+      cases config with
+      | some k =>
+        refine ⟨rfl, rfl, rfl, rfl, ?_, ?_, ?_⟩
+        · simp [conCfg, Heap.allocCfg]
+        · simp [conCfg, Heap.allocCfg, Heap.cfgOf]
+        · intro k' hk'
+          simp only [Option.some.injEq] at hk'
+          subst hk'
+          simp [conCfg, Heap.allocCfg, Heap.cfgOf]
+      | none =>
+        cases srr with
+        | true =>
+          refine ⟨rfl, rfl, rfl, rfl, ?_, ?_, fun k hk => by simp at hk⟩
+          · simp [conCfg, Heap.allocCfg, Heap.allocOffs]
+          · simp [conCfg, Heap.allocCfg, Heap.allocOffs, Heap.cfgOf]
+        | false =>
+          refine ⟨rfl, rfl, rfl, rfl, ?_, ?_, fun k hk => by simp at hk⟩
+          · simp [conCfg, Heap.allocCfg]
+          · simp [conCfg, Heap.allocCfg, Heap.cfgOf]
+    obtain ⟨f1, f2, f3, f4, f5, f6, f7⟩ := hcfg (h1.allocDict d).2
+    subst hw
+    have hdict : (conCfg (h1.allocDict d).2 srr config).2.dict h1.dicts.length = d := by
+      unfold Heap.dict
+      rw [f3]
+      simp [Heap.allocDict]
+    have hcals : (conCfg (h1.allocDict d).2 srr config).2.cals = h1.cals := by rw [f2]; rfl
+    have hcfgs : (h1.allocDict d).2.cfgs = h.cfgs := c2.2.2.2.1
+    refine ⟨?_, ⟨?_, ?_, ?_, ?_⟩, rfl, rfl, ?_, ?_, ?_, ?_, ?_, ?_, ?_, ?_⟩
+    · apply State.ext'
+      · rfl
+      · show data.map (viewLayer _) = data.map (viewLayer h)
+        apply List.map_congr_left
+        intro a _
+        have : (conCfg (h1.allocDict d).2 srr config).2.cells = h.cells := by rw [f1]; exact c2.1
+        rw [viewLayer_congr this]
+      · show viewDict _ (Heap.dict _ h1.dicts.length) = initCal (elementsOf (data.map (viewLayer h))) _
+        rw [hdict, elementsOf_viewLayers, ← c1]
+        exact viewDict_congr (fun e _ => by unfold Heap.calOf; rw [hcals])
+      · show (Heap.cfgOf _ (conCfg (h1.allocDict d).2 srr config).1).scal = _
+        rw [f4, f6]
+        congr 2
+        funext k
+        rw [cfgOf_congr hcfgs]
+    · show h1.dicts.length < (conCfg (h1.allocDict d).2 srr config).2.dicts.length
+      rw [f3]; simp [Heap.allocDict]
+    · show ∀ e ∈ Heap.dict _ h1.dicts.length, e.2 < (conCfg (h1.allocDict d).2 srr config).2.cals.length
+      rw [hdict, hcals]
+      exact fun e he => (c3 e he).2
+    · show (conCfg (h1.allocDict d).2 srr config).1 < (conCfg (h1.allocDict d).2 srr config).2.cfgs.length
+      rw [f4, f5]; omega
+    · intro a ha e he
+      show e.2 < (conCfg (h1.allocDict d).2 srr config).2.cells.length
+      rw [f1]
+      show e.2 < h1.cells.length
+      rw [c2.1]
+      exact hd a ha e he
+    · show h.dicts.length ≤ h1.dicts.length
+      rw [c2.2.2.2.2.2]; exact Nat.le_refl _
+    · show ∀ e ∈ Heap.dict _ h1.dicts.length, h.cals.length ≤ e.2
+      rw [hdict]
+      exact fun e he => (c3 e he).1
+    · show h.cfgs.length ≤ (conCfg (h1.allocDict d).2 srr config).1
+      rw [f4, hcfgs]; exact Nat.le_refl _
+    · intro k hk
+      show (Heap.cfgOf _ (conCfg (h1.allocDict d).2 srr config).1).offs = _
+      rw [f4, f7 k hk, cfgOf_congr hcfgs]
+    · rw [f1]; exact c2.1
+    · rw [hcals]; exact c2.2.1
+    · rw [f3]
+      show h.dicts.length ≤ (h1.dicts ++ [d]).length
+      rw [c2.2.2.2.2.2]; simp
+    · rw [f5, hcfgs]; omega
+
+theorem hConstruct_sep {h : Heap} {srr : Bool} {data : List Arr} {given config : Option Nat} {w : World}
+    (hd : ∀ a ∈ data, ArrOK h a) (hg : ∀ g, given = some g → ∀ e ∈ h.dict g, e.2 < h.cals.length)
+    (hw : hConstruct h srr data given config = some w) (F : Foreign)
+    (hF : (∀ k ∈ F.cals, k < h.cals.length) ∧ (∀ k ∈ F.dicts, k < h.dicts.length) ∧ (∀ k ∈ F.cfgs, k < h.cfgs.length)) :
+    Sep F w := by
+  obtain ⟨_, _, _, _, s1, s2, s3, _, _, s6, s7, s8⟩ := hConstruct_spec h srr data given config w hd hg hw
+  refine ⟨fun k hk => Nat.lt_of_lt_of_le (hF.1 k hk) s6, fun k hk => Nat.lt_of_lt_of_le (hF.2.1 k hk) s7,
+    fun k hk => Nat.lt_of_lt_of_le (hF.2.2 k hk) s8, ?_, ?_, ?_⟩
+  · intro hm; have := hF.2.1 _ hm; omega
+  · intro e he hm; have := hF.1 _ hm; have := s2 e he; omega
+  · intro hm; have := hF.2.2 _ hm; omega
+
 end Pew.LaserEdit
